@@ -576,6 +576,15 @@ where
     }
 }
 
+/// Returns whether `name` is exactly one normal path component (no separator, not `.`/`..`, not absolute).
+fn is_plain_name(name: &OsStr) -> bool {
+    let mut components = Path::new(name).components();
+    matches!(
+        (components.next(), components.next()),
+        (Some(Component::Normal(component)), None) if component == name
+    )
+}
+
 // TODO: This is not parallel at the moment...
 impl<BE, I> Iterator for NodeStreamer<'_, BE, I>
 where
@@ -587,11 +596,21 @@ where
     fn next(&mut self) -> Option<Self::Item> {
         loop {
             if let Some(node) = self.inner.next() {
-                let path = self.path.join(node.name());
+                let name = node.name();
+                // the name of a node must be one plain path component: names like `..`, `a/b` or
+                // absolute paths would make the streamed path leave the tree (and a restore leave its destination)
+                if !is_plain_name(&name) {
+                    return Some(Err(RusticError::new(
+                        ErrorKind::InvalidInput,
+                        "Tree contains a node with the invalid name `{name}`. Node names must be a single path component.",
+                    )
+                    .attach_context("name", name.to_string_lossy().to_string())));
+                }
+                let path = self.path.join(&name);
                 if self.recursive
                     && let Some(id) = node.subtree
                 {
-                    self.path.push(node.name());
+                    self.path.push(&name);
                     let be = self.be.clone();
                     let tree = match Tree::from_backend(&be, self.index, id) {
                         Ok(tree) => tree,
